@@ -70,13 +70,6 @@ impl TimeoutExt for Timeout {
     fn has_triggered_edge<CB: Callback>(&mut self, cb: &mut CB) -> (r: bool) { unimplemented!() }
 }
 
-pub struct CapacityError;
-impl Clone for CapacityError { fn clone(&self) -> Self { CapacityError } }
-impl core::fmt::Debug for CapacityError {
-    #[verifier::external_body]
-    fn fmt(&self, f: &mut core::fmt::Formatter) -> core::fmt::Result { unimplemented!() }
-}
-
 // ghost: spec of `impl<CE> From<CE> for Error<CE>` (the exec impl is extracted and checked against it)
 impl<CE> vstd::std_specs::convert::FromSpecImpl<CE> for Error<CE> {
     open spec fn obeys_from_spec() -> bool { true }
@@ -340,3 +333,40 @@ spec fn acks_after(d: Seq<u8>, ack: u16) -> u16
         acks_after(rest, ack2)
     }
 }
+
+// ---- Packet::read = with_buffer glue around Packet::read_impl (unit pkt_parse6) ------------------
+// `spec_read` names the parse result as a function of the datagram and the token hint
+// (Packet::read takes neither the connection nor the callback: by typing it cannot touch them).
+pub uninterp spec fn spec_read<'b>(bytes: Seq<u8>, token_hint: Option<bool>) -> Result<Packet<'b>, PacketReadError>;
+spec fn token_hint_of(s: State) -> Option<bool> {
+    match state_token(s) { Some(t) => Some(t.is_some()), None => None }
+}
+impl<'a> Packet<'a> {
+    #[verifier::external_body]
+    fn read<'b, 's, 'x, W: Warn<ProtocolWarning>>(warn: &mut W, bytes: &'b [u8], token_hint: Option<bool>, buffer: &'x mut BufferRef<'b, 's>)
+        -> (r: Result<Packet<'b>, PacketReadError>)
+        requires (*old(buffer)).wf(), (*old(buffer)).init().len() == 0, (*old(buffer)).cap() >= 1400,
+        ensures
+            r == spec_read::<'b>(bytes@, token_hint),
+            // facts from the contract of read_impl (pkt_parse6)
+            r is Ok ==> match r->Ok_0 {
+                Packet::Connless(p) => true,
+                Packet::Connected(c) => {
+                    &&& c.ack < 1024
+                    &&& (token_hint == Some(true) ==> c.token.is_some())
+                    &&& (token_hint == Some(false) ==> c.token.is_none())
+                    &&& match c.type_ {
+                        ConnectedPacketType::Chunks(_, _, payload) => payload@.len() <= 1397,
+                        ConnectedPacketType::Control(ControlPacket::Close(reason)) =>
+                            reason@.len() <= 127 && (forall|i: int| 0 <= i < reason@.len() ==> reason@[i] != 0),
+                        _ => true,
+                    }
+                },
+            },
+    { unimplemented!() }
+}
+// Token::random(|b| cb.secure_random(b)): closure capturing `cb` mutably; Token::random itself is verified above
+#[verifier::external_body]
+fn vx_token_random<CB: Callback>(cb: &mut CB) -> (r: Token)
+    ensures r != TOKEN_NONE, r != TOKEN_RESERVED, (*final(cb)).sent() == (*old(cb)).sent(),
+{ unimplemented!() }
